@@ -547,7 +547,7 @@ def sample(ctx, budget=1.0, hint=None, broken=None):
                 n_eval += 1
                 nontriv.add(('segcache', kind, quad_avail))
                 hist = []
-                first = r.choice([None, (1e-3, 1), (1e-3, 5), (1e-2, 5), (1e-1, 0), (1e-12, 5), (1e-14, 8)])
+                first = r.choice([None, (1e-3, 1), (1e-3, 5), (1e-2, 5), (1e-1, 0), (1e-12, 5), (1e-14, 8), (1e-12, 0), (1e-12, 2), (1e-13, 1)])
                 if first:
                     s.length(error=first[0], min_depth=first[1]); hist.append('length(error=%g,min_depth=%d)' % first)
                     if kind == 'quad':
